@@ -115,16 +115,31 @@ pub fn known_probe(trigger: &str) -> Option<bool> {
             Some(!matches!(r, Ok((true, true, true))))
         }
         "query-carrier-encoded-credential" => {
+            // specific to the recorded defect: the presigned credential is read percent-encoded and
+            // refused for its arity (any other failure of this request is some other matter)
             let (m, node, acct, now) = fixed_message(Carrier::Query, vec![(b"a".to_vec(), b"b".to_vec())], None, false);
-            Some(!deliver_fixed(&m, &node, &acct, now)?.is_ok())
+            let o = deliver_fixed(&m, &node, &acct, now)?;
+            Some(o.err().map(|e| libi::classify(e).contains(&Rule::Arity)).unwrap_or(false))
         }
         "canonical-query-prefix-order" => {
             let r = catch_unwind(|| canonical::query_string_to_normalized_map("a-b=y&a=x&=1&%00=2").map(|m| canonical::canonicalize_query_to_string(&m)));
             Some(!matches!(r, Ok(Ok(ref s)) if s == "=1&%00=2&a=x&a-b=y"))
         }
         "fold-same-name-url-and-body" => {
-            let (m, node, acct, now) = fixed_message(Carrier::Header, vec![(b"k".to_vec(), b"url".to_vec())], Some(vec![(b"k".to_vec(), b"body".to_vec())]), true);
-            Some(!deliver_fixed(&m, &node, &acct, now)?.is_ok())
+            // specific to the recorded defect: the URL value of a name that also occurs in the body
+            // is missing from the canonical query (observed through the `unstable` seam)
+            let (m, node, _acct, _now) = fixed_message(Carrier::Header, vec![(b"k".to_vec(), b"url".to_vec())], Some(vec![(b"k".to_vec(), b"body".to_vec())]), true);
+            let mut t = Tape::replay(vec![]);
+            let wire = render(&m, &mut t, &RenderOpts {
+                mask: crate::world::NOISE_ALL,
+                noise: 0,
+                s3: node.cfg.s3,
+                permute_pairs: false,
+            });
+            match lib_canonical(&wire, false, true, &m.auth.signed) {
+                Ok(Ok(c)) => Some(!(c.query.contains("k=body") && c.query.contains("k=url"))),
+                _ => None,
+            }
         }
         "fold-target-over-64k" => {
             let big = vec![(b"k".to_vec(), vec![b'v'; 70_000])];
